@@ -37,8 +37,6 @@ MIXED_INT = ['sdiv.checked_div_rem', 'sdiv.checked_div', 'sdiv.rem', 'sdiv.check
 MIXED_UINT = ['sdiv.div_rem_uint', 'sdiv.div_uint', 'sdiv.rem_uint', 'sdiv.div_rem_floor_uint', 'sdiv.div_floor_uint',
               'sdiv.normalized_rem']
 
-# Set VERIF_C14_NOSKIP=1 to generate the inputs of the reported defect classes as well.
-NOSKIP = bool(os.environ.get('VERIF_C14_NOSKIP'))
 
 
 def M(n): return 1 << (64 * n)
@@ -113,15 +111,8 @@ def dividend(rng, l, d):
     return sval(rng, l)
 
 
-def defect_floor_rem(n, d):
-    # DEFECT: checked_div_rem_floor(_vartime) re-signs the remainder with sign(n) xor sign(d) instead of
-    # sign(d): for every negative dividend with a non-zero remainder the returned r has the wrong sign and
-    # n != q*d + r (e.g. (-8) div_floor 3 -> q = -3, r = -1; (-8) div_floor (-3) -> q = 2, r = +2).
-    return n < 0 and n % d != 0
-
-
 def defect_uint_rem_width(n, d, l, r):
-    # DEFECT: div_rem_uint_vartime / rem_uint_vartime return the remainder as Int<RHS_LIMBS>; with
+    # DEFECT (open, finding F14): div_rem_uint_vartime / rem_uint_vartime return the remainder as Int<RHS_LIMBS>; with
     # RHS_LIMBS < LIMBS and a divisor >= 2^(64*RHS_LIMBS-1) the true remainder |r| can exceed Int<RHS>::MAX and
     # is returned reinterpreted (e.g. Int<2> 2^64-2 rem Uint<1> 2^64-1 -> -2 instead of 2^64-2).
     rem = abs(n) % d
@@ -138,13 +129,9 @@ def gen(tier, rng):
         tag = ('l%d' % l, 'r%d' % r)
         if mixed:
             for mop in MIXED_INT:
-                if mop == 'sdiv.checked_div_rem_floor' and defect_floor_rem(n, d) and not NOSKIP:
-                    continue
                 add(Case(mop + '.vartime', [N, D], mop=mop, tags=tag))
             return
         for mop, forms in INT_NZ.items():
-            if mop == 'sdiv.checked_div_rem_floor' and defect_floor_rem(n, d) and not NOSKIP:
-                continue
             for f in forms:
                 add(Case(mop + f, [N, D], mop=mop, dbg=(f not in ('', '.vartime')), tags=tag))
         for mop, forms in INT_ANY.items():
@@ -156,7 +143,9 @@ def gen(tier, rng):
         tag = ('l%d' % l, 'r%d' % r, 'u')
         if mixed:
             for mop in MIXED_UINT:
-                if mop in ('sdiv.div_rem_uint', 'sdiv.rem_uint') and defect_uint_rem_width(n, d, l, r) and not NOSKIP:
+                if mop in ('sdiv.div_rem_uint', 'sdiv.rem_uint') and defect_uint_rem_width(n, d, l, r):
+                    # open finding F14: generated and compared, tagged so that the check can report it as KNOWN-FINDING
+                    add(Case(mop + '.vartime', [N, D], mop=mop, tags=tag + ('known:F14',)))
                     continue
                 add(Case(mop + '.vartime', [N, D], mop=mop, tags=tag))
             return
@@ -171,8 +160,6 @@ def gen(tier, rng):
         for n in grid_n:
             for d in grid_d:
                 for mop in ['sdiv.checked_div_rem', 'sdiv.checked_div_rem_floor']:
-                    if mop == 'sdiv.checked_div_rem_floor' and defect_floor_rem(n, d) and not NOSKIP:
-                        continue
                     add(Case(mop, [enc(n, l), enc(d, l)]))
                     add(Case(mop + '.vartime', [enc(n, l), enc(d, l)], mop=mop))
                 add(Case('sdiv.checked_div', [enc(n, l), enc(d, l)]))
